@@ -14,6 +14,7 @@ OBLIGATIONS = [
     'C02.outer_signature_independent', 'C02.outer_assoc', 'C02.outer_alternating', 'C02.grade_xor', 'C02.gradedMt_mem',
     'C02.graded_table_contraction_is_mmul',
     'C02.outer_is_zero_signature_product', 'C02.zero_signature_form_is_zero', 'C02.outer_is_exterior_product',
+    'C02.left_contraction_antiderivation', 'C02.left_contraction_is_mathlib_contractLeft',
 ]
 PENDING = []
 RULE = ("layouts as in C01 (exhaustive small signatures, random larger ones, custom ids/orders); per layout every grade pair (r,s) "
